@@ -116,7 +116,8 @@ def gen_trace(recipe):
   for cfg in recipe['cfgs']:
     name = cfg['cls']
     per = max(4, int(np.ceil(4.0 * cfg['d'] / cfg['ncls'])) + 1)
-    X, y = gen.dataset(rng, d=cfg['d'], n_classes=cfg['ncls'], per_class=per)
+    # (class layouts: balanced, or one small class of the minimum size next to 2-3 times larger ones)
+    X, y = gen.dataset(rng, d=cfg['d'], n_classes=cfg['ncls'], per_class=per, unbalanced=bool(recipe.get('unbalanced')))
     if recipe.get('relabel') and gen.KIND[name] == 'sup':
       y = gen.relabel(rng, y)         # class ids with gaps / not starting at 0
     tr = gen.training(rng, name, X=X, y=y)
@@ -191,7 +192,7 @@ def run(ctx):
         if others:
           d2 = others[int(rng.integers(len(others)))]
           seq.append(index[key(c)][d2])
-      rs.append(dict(cfgs=seq, seed=int(rng.integers(1 << 30)), relabel=bool(rng.integers(2))))
+      rs.append(dict(cfgs=seq, seed=int(rng.integers(1 << 30)), relabel=bool(rng.integers(2)), unbalanced=bool(rng.integers(3) == 0)))
   ctx.rule = ('every configuration enumerated by TLC from Options.tla (17 estimators x init/prior/basis x '
               'embedding_type x k x n_components x n_features %d..%d x n_classes 2..3) is fitted on a generated '
               'well-formed training set, %d time(s), plus a refit of the same object on another dimensionality; '
